@@ -2,6 +2,7 @@ package rules
 
 import (
 	"go/token"
+	"go/types"
 	"strings"
 
 	"golang.org/x/tools/go/ssa"
@@ -17,6 +18,7 @@ func init() {
 			"compaction removes the original only after the copy was written successfully under its final name; the error path removes only the copy; nothing is renamed after the removal (C07.compact-order)",
 			"existing history files are opened with O_APPEND and without O_TRUNC, os.Create only under 'does not exist', and the history store opens files only through that helper (C07.append-only)",
 			"a line that does not decode never makes ParseFile fail; the last decoded status is returned (C07.tolerant-reader)",
+			"every list of run files the history store sorts, slices or walks is a complete glob result or a newest-first prefix of it: no candidate is dropped by its name before being opened (C07.all-matches-considered)",
 			"the 'no complete line yet' outcome (nil, io.EOF) of the newest run file must not escape the latest-status query as a hard error (C07.empty-newest) — violated today, known finding F15",
 		},
 		NotDec: []string{
@@ -32,6 +34,7 @@ func runC07(e *Env) {
 	c07AppendOnly(e)
 	c07TolerantReader(e)
 	c07EmptyNewest(e)
+	c07Candidates(e)
 }
 
 // mayBeNil: a returned error value that is not known to be non-nil at the return.
@@ -543,4 +546,158 @@ func c07EmptyNewest(e *Env) {
 	}
 	r.Check(handled, "ReadStatusToday: the empty-newest-file outcome (nil, io.EOF) is handled", e.Pos(rst.Pos()),
 		"a run file that exists but has no complete line yet (process killed between Open and the first Write) makes the latest-status query fail with io.EOF: older completed runs are hidden, the daemon's start guard and the UI treat it as a hard error")
+}
+
+// c07Candidates: the lists of run files the history store sorts, slices and walks
+// are complete glob results, or newest-first prefixes of them: no reader (and no
+// rename / retention sweep) narrows the candidates by their NAMES before looking at
+// them. A run interrupted inside the compaction leaves the complete original next to
+// an empty or torn twin; a reader that prefers one of the two by name hides the
+// acknowledged record (the tolerant reader only helps for files that are opened).
+func c07Candidates(e *Env) {
+	r := e.R
+	r.Rule("C07.all-matches-considered", "VF", "every list of run files that is indexed is a glob result or a prefix of one", 3)
+	sp := e.P.Pkg(jsondbRel)
+	if sp == nil {
+		r.Unknown("history store package", "", "not found")
+		return
+	}
+	isStrSlice := func(t types.Type) bool {
+		s, ok := t.Underlying().(*types.Slice)
+		if !ok {
+			return false
+		}
+		b, ok := s.Elem().Underlying().(*types.Basic)
+		return ok && b.Kind() == types.String
+	}
+	var accepted func(v ssa.Value, seen map[ssa.Value]bool, d int) (bool, string)
+	accepted = func(v ssa.Value, seen map[ssa.Value]bool, d int) (bool, string) {
+		v = ir.Resolve(v)
+		if seen[v] {
+			return true, ""
+		}
+		if d > 10 {
+			return false, "origin too deep"
+		}
+		seen[v] = true
+		switch x := v.(type) {
+		case *ssa.Const:
+			return x.IsNil(), "constant"
+		case *ssa.Extract:
+			if c, ok := x.Tuple.(*ssa.Call); ok && x.Index == 0 {
+				if ir.IsCallTo(&c.Call, "path/filepath.Glob") {
+					return true, ""
+				}
+				return accepted(c, seen, d+1)
+			}
+		case *ssa.Slice:
+			if x.Low != nil {
+				if k, isK := ir.ConstInt(x.Low); !isK || k != 0 {
+					return false, "a sub-slice that does not start at the first element at " + e.InstrPos(x)
+				}
+			}
+			return accepted(x.X, seen, d+1)
+		case *ssa.Phi:
+			for _, ev := range x.Edges {
+				if ok, why := accepted(ev, seen, d+1); !ok {
+					return false, why
+				}
+			}
+			return true, ""
+		case *ssa.UnOp:
+			if x.Op == token.MUL {
+				switch x.X.(type) {
+				case *ssa.Alloc, *ssa.FreeVar:
+					st := ir.StoresTo(x.X)
+					if len(st) == 0 {
+						return false, "variable without a visible assignment"
+					}
+					for _, sv := range st {
+						if ok, why := accepted(sv, seen, d+1); !ok {
+							return false, why
+						}
+					}
+					return true, ""
+				}
+			}
+		case *ssa.Parameter:
+			f := x.Parent()
+			idx := -1
+			for k, q := range f.Params {
+				if q == x {
+					idx = k
+				}
+			}
+			sites := e.callSitesAll(f)
+			if len(sites) == 0 || idx < 0 {
+				return false, "parameter of " + ShortFn(f) + " (no call site in the repository)"
+			}
+			for _, cs := range sites {
+				args := cs.Common().Args
+				if cs.Common().IsInvoke() || idx >= len(args) {
+					return false, "call site of another shape at " + e.InstrPos(cs)
+				}
+				if ok, why := accepted(args[idx], seen, d+1); !ok {
+					return false, why
+				}
+			}
+			return true, ""
+		case *ssa.Call:
+			// a copy of the whole list: append([]string(nil), files...), slices.Clone(files)
+			if bi, isB := x.Call.Value.(*ssa.Builtin); isB && bi.Name() == "append" && len(x.Call.Args) == 2 {
+				if ok0, _ := accepted(x.Call.Args[0], seen, d+1); ok0 {
+					return accepted(x.Call.Args[1], seen, d+1)
+				}
+			}
+			if ir.IsCallTo(&x.Call, "slices.Clone") && len(x.Call.Args) == 1 {
+				return accepted(x.Call.Args[0], seen, d+1)
+			}
+			g := x.Call.StaticCallee()
+			if g == nil || !e.P.Funcs[g] || g.Blocks == nil {
+				return false, "list produced by " + ir.CalleeName(&x.Call) + " at " + e.InstrPos(x)
+			}
+			for _, b := range g.Blocks {
+				rt, ok := b.Instrs[len(b.Instrs)-1].(*ssa.Return)
+				if !ok || len(rt.Results) == 0 || !e.Facts(g).Reachable(b) {
+					continue
+				}
+				if ok, why := accepted(rt.Results[0], seen, d+1); !ok {
+					return false, why
+				}
+			}
+			return true, ""
+		case *ssa.MakeSlice, *ssa.Alloc:
+			return false, "a freshly built list at " + e.InstrPos(v.(ssa.Instruction))
+		}
+		if in, ok := v.(ssa.Instruction); ok {
+			return false, "list computed at " + e.InstrPos(in)
+		}
+		return false, "list of unknown origin"
+	}
+	for _, f := range e.RepoFuncsSorted() {
+		if rootFn(f).Package() != sp {
+			continue
+		}
+		seenBase := map[ssa.Value]bool{}
+		for _, b := range f.Blocks {
+			for _, in := range b.Instrs {
+				ia, ok := in.(*ssa.IndexAddr)
+				if !ok || !isStrSlice(ia.X.Type()) {
+					continue
+				}
+				base := ir.Resolve(ia.X)
+				if seenBase[base] {
+					continue
+				}
+				seenBase[base] = true
+				ok2, why := accepted(ia.X, map[ssa.Value]bool{}, 0)
+				var facts []string
+				if why != "" {
+					facts = append(facts, why)
+				}
+				r.Check(ok2, ShortFn(rootFn(f))+": the indexed list of run files is a complete glob result (or a prefix of it)", e.InstrPos(ia),
+					"the history store walks / sorts a list of run files that was narrowed by name before the files were looked at: after a crash inside the compaction (complete original next to an empty twin) the acknowledged record is hidden", facts...)
+			}
+		}
+	}
 }
